@@ -202,15 +202,19 @@ def make_invalid(n):
     return "MAP\n  NAME 'invalid'\n" + layers + "END\n"
 
 
-def cli_validate_case(ch, work):
+UNPARSEABLE = ["MAP\n  NAME 'x'\n", "MAP NAME END", "LAYER TYPE POINT END END", "\x00",
+               "MAP\n  INCLUDE 'no_such_file.map'\nEND\n", "SELF", "LATIN1", "DEEP"]
+
+
+def cli_validate_case(ch, work, forced=None):
     import mappyfile
 
     kinds = []
     files = []
-    nfiles = ch.int(1, 4)
-    total_errors_hint = ch.choice([None, None, 255, 256, 257, 300, 512])
+    nfiles = ch.int(1, 4) if forced is None else len(forced)
+    total_errors_hint = ch.choice([None, None, 255, 256, 257, 300, 512]) if forced is None else None
     for i in range(nfiles):
-        kind = ch.choice(["valid", "invalid", "invalid", "unparseable", "versioned", "versioned"])
+        kind = ch.choice(["valid", "invalid", "invalid", "unparseable", "versioned", "versioned"]) if forced is None else forced[i][0]
         fn = f"f{i}_{kind}.map"
         if kind == "versioned":
             # a map whose verdict depends on --version: one keyword with minVersion / maxVersion in its schema entry
@@ -226,7 +230,22 @@ def cli_validate_case(ch, work):
             n = total_errors_hint if (total_errors_hint and "invalid" not in kinds) else ch.choice([1, 2, 3, 7, 40])
             text = make_invalid(n)
         else:
-            text = ch.choice(["MAP\n  NAME 'x'\n", "MAP NAME END", "LAYER TYPE POINT END END", "\x00"])
+            # every way a file can fail to parse: syntax, an INCLUDE that is missing / nested too deeply / circular,
+            # bytes that are not UTF-8
+            text = ch.choice(UNPARSEABLE) if forced is None else forced[i][1]
+            if text == "SELF":
+                text = f"MAP\n  INCLUDE '{fn}'\nEND\n"
+        if text == "LATIN1":
+            with open(os.path.join(work, fn), "wb") as f:
+                f.write("MAP\n  NAME 'caf\u00e9'\nEND\n".encode("latin-1"))
+            kinds.append(kind)
+            files.append(fn)
+            continue
+        if text == "DEEP":
+            for lvl in range(1, 7):
+                with open(os.path.join(work, f"deep{i}_{lvl}.inc"), "w", encoding="utf-8") as f:
+                    f.write(f"INCLUDE 'deep{i}_{lvl + 1}.inc'\n" if lvl < 6 else "NAME 'leaf'\n")
+            text = f"MAP\n  INCLUDE 'deep{i}_1.inc'\nEND\n"
         with open(os.path.join(work, fn), "w", encoding="utf-8", newline="") as f:
             f.write(text)
         kinds.append(kind)
@@ -339,6 +358,20 @@ def cli_part(acc: Acc, tier, shard, nshards):
             shutil.rmtree(work, ignore_errors=True)
 
     hyp_search(acc, ID, "cli", shard, n, body, tier, max_rounds=2, shrink_cap_s=15)
+    # every way a file can fail to parse, between a valid and an invalid file: counted as one problem, the other files
+    # are still processed (one directed case per kind, spread over the shards)
+    for j, bad in enumerate(UNPARSEABLE):
+        if (j + 4) % nshards != shard:
+            continue
+        work = tempfile.mkdtemp(prefix="mfv_c20cli_")
+        try:
+            res, case, nt = cli_validate_case(model.RandCh(j), work, forced=[("valid", None), ("unparseable", bad), ("invalid", None)])
+            acc.case(case, True)
+            acc.cls("cli:unparseable_between_files")
+            for dd in res:
+                acc.violations.append({**dd.as_dict(), "search": "cli_unparseable", "shard": shard, "round": 0, "seed": env.verif_seed(), "tier": tier})
+        finally:
+            shutil.rmtree(work, ignore_errors=True)
     # the exit-status boundaries are always exercised (shard 0..3 take one each)
     fixed = [255, 256, 257, "unparseable"]
     if shard < len(fixed):
